@@ -32,17 +32,18 @@ type retRec struct {
 }
 
 type loopInfo struct {
-	head     *ssa.BasicBlock
-	body     map[*ssa.BasicBlock]bool
-	ord      int
-	spec     *LoopSpec
-	preSt    *State // state at loop entry (before havoc)
-	headSt   *State // state after havoc, at head
-	phiVals  map[*ssa.Phi]Val
-	variant0 string
-	cands    []*autoInv
-	iterHead string // loopiter: number of completed iterations at the loop head (ghost)
-	iterCur  string
+	head         *ssa.BasicBlock
+	body         map[*ssa.BasicBlock]bool
+	ord          int
+	spec         *LoopSpec
+	preSt        *State // state at loop entry (before havoc)
+	headSt       *State // state after havoc, at head
+	phiVals      map[*ssa.Phi]Val
+	variant0     string
+	variantMore0 []string
+	cands        []*autoInv
+	iterHead     string // loopiter: number of completed iterations at the loop head (ghost)
+	iterCur      string
 }
 
 type Frame struct {
@@ -681,6 +682,17 @@ func (fr *Frame) assumeInvariants(li *loopInfo, entryVals map[*ssa.Phi]Val) {
 		if err == nil && kindOf(v.T) == kScalar {
 			li.variant0 = v.S
 		}
+		li.variantMore0 = nil
+		for _, dc := range li.spec.DecreasesMore {
+			v, err := env.eval(dc.E)
+			if err != nil {
+				fr.e.errs = append(fr.e.errs, fmt.Sprintf("%s: %v", dc.Line, err))
+				li.variantMore0 = append(li.variantMore0, "")
+				continue
+			}
+			v, _ = env.coerce(v, tInt)
+			li.variantMore0 = append(li.variantMore0, fr.e.toBV64(v))
+		}
 	}
 }
 
@@ -731,8 +743,31 @@ func (fr *Frame) backEdge(from, head *ssa.BasicBlock, c string) {
 					lt, le = "bvslt", "bvsle"
 				}
 				zero := bvLitI(w, 0)
+				goal := mkAnd(app(le, zero, li.variant0), app(lt, v.S, li.variant0))
+				if len(li.spec.DecreasesMore) > 0 {
+					// lexicographic: first component decreases, or stays and the rest decreases lexicographically
+					bounded := []string{app(le, zero, li.variant0)}
+					dec := app(lt, v.S, li.variant0)
+					same := mkEq(v.S, li.variant0)
+					for i, dc := range li.spec.DecreasesMore {
+						if i >= len(li.variantMore0) || li.variantMore0[i] == "" {
+							break
+						}
+						nv, err := env.eval(dc.E)
+						if err != nil {
+							break
+						}
+						nv, _ = env.coerce(nv, tInt)
+						n := fr.e.toBV64(nv)
+						z64 := bvLitI(64, 0)
+						bounded = append(bounded, app("bvsle", z64, li.variantMore0[i]))
+						dec = mkOr(dec, mkAnd(same, app("bvslt", n, li.variantMore0[i])))
+						same = mkAnd(same, mkEq(n, li.variantMore0[i]))
+					}
+					goal = mkAnd(append(bounded, dec)...)
+				}
 				fr.e.oblige("variant", fmt.Sprintf("%sloop%d", fr.prefix, li.ord), c,
-					mkAnd(app(le, zero, li.variant0), app(lt, v.S, li.variant0)), li.spec.Decreases.Line, li.spec.Decreases.Src)
+					goal, li.spec.Decreases.Line, li.spec.Decreases.Src)
 			}
 		}
 	}
